@@ -13,6 +13,7 @@
 package main
 
 import (
+	"context"
 	"errors"
 	"fmt"
 	"net/http"
@@ -25,6 +26,7 @@ import (
 	"sync"
 	"time"
 
+	"rivaas.dev/app"
 	"rivaas.dev/router"
 	"rivaas.dev/router/route"
 	"rivaas.dev/router/version"
@@ -1058,6 +1060,101 @@ func runStress(id string, r *hx.Rand, st *hx.Stats) string {
 	return l.String()
 }
 
+// runApp: the same rule one layer up (app/lifecycle.go, app/app.go, app/version_group.go): routes, version
+// routes and lifecycle hooks are accepted before the router is frozen and panic afterwards; the frozen app
+// serves exactly what was registered before. Sequential; reported like a stress run.
+func runApp(id string, viaRequest bool, st *hx.Stats) string {
+	var bad []string
+	fail := func(f string, a ...any) { bad = append(bad, fmt.Sprintf(f, a...)) }
+	a, err := app.New(app.WithServiceName("verif-c12"), app.WithServiceVersion("v0.0.0"),
+		app.WithRouter(router.WithVersioning(version.WithHeaderDetection("X-API-Version"), version.WithDefault("v1"))))
+	if err != nil {
+		fail("app.New: %v", err)
+	} else {
+		h := func(c *app.Context) { _ = c.String(http.StatusOK, "ok") }
+		get := func(p string) int {
+			rec := httptest.NewRecorder()
+			a.Router().ServeHTTP(rec, httptest.NewRequest(http.MethodGet, p, nil))
+			return rec.Code
+		}
+		hooks := map[string]func(){
+			"OnStart":    func() { a.OnStart(func(context.Context) error { return nil }) },
+			"OnReady":    func() { a.OnReady(func() {}) },
+			"OnReload":   func() { a.OnReload(func(context.Context) error { return nil }) },
+			"OnShutdown": func() { a.OnShutdown(func(context.Context) {}) },
+			"OnStop":     func() { a.OnStop(func() {}) },
+			"OnRoute":    func() { a.OnRoute(func(*route.Route) {}) },
+		}
+		names := make([]string, 0, len(hooks))
+		for n := range hooks {
+			names = append(names, n)
+		}
+		sort.Strings(names)
+		early := []func(){
+			func() { a.GET("/r1/:id", h) },
+			func() { a.Version("v1").GET("/r3/:id", h) },
+			func() { a.Group("/g").GET("/r2/:id", h) },
+		}
+		for i, f := range early {
+			if panics(f) {
+				fail("early registration %d panicked", i)
+			}
+		}
+		for _, n := range names {
+			if panics(hooks[n]) {
+				fail("%s before the freeze panicked", n)
+			}
+		}
+		if viaRequest {
+			if c := get("/r1/12"); c != http.StatusOK {
+				fail("first request answered %d", c)
+			}
+		} else {
+			a.Router().Freeze()
+		}
+		late := map[string]func(){
+			"app.GET":          func() { a.GET("/r4/:id", h) },
+			"app.Version.GET":  func() { a.Version("v1").GET("/r6/:id", h) },
+			"app.Group.GET":    func() { a.Group("/g").GET("/r5/:id", h) },
+			"app.Version2.GET": func() { a.Version("v2").GET("/r8/:id", h) },
+		}
+		for n, f := range late {
+			if !panics(f) {
+				fail("%s after the freeze did not panic", n)
+			}
+		}
+		for _, n := range names {
+			if !panics(hooks[n]) {
+				fail("%s after the freeze did not panic", n)
+			}
+		}
+		for _, p := range []string{"/r1/12", "/r3/12", "/g/r2/12"} {
+			if c := get(p); c != http.StatusOK {
+				fail("%s answered %d", p, c)
+			}
+		}
+		for _, p := range []string{"/r4/12", "/r6/12", "/g/r5/12", "/r8/12"} {
+			if c := get(p); c == http.StatusOK {
+				fail("late route %s is routable", p)
+			}
+		}
+	}
+	l := hx.NewLine(id).Tok("S").Nat(0)
+	in := l.String()
+	l.Sep()
+	if len(bad) == 0 {
+		l.Tok("OK")
+	} else {
+		sort.Strings(bad)
+		l.Tok("BAD").Str(strings.Join(bad, "; "))
+	}
+	if st != nil {
+		st.Case(in[len(id):]+id, false)
+		st.Count("app_level_runs")
+	}
+	return l.String()
+}
+
 // ---------------------------------------------------------------- main
 
 const urlOn = true
@@ -1092,6 +1189,8 @@ func main() {
 		if a.Tier == "thorough" {
 			nStress = budget / 2
 		}
+		fmt.Fprintln(w, runApp("c12a-0", false, st))
+		fmt.Fprintln(w, runApp("c12a-1", true, st))
 		for i := 0; i < nStress && !sawDeadlock; i++ {
 			fmt.Fprintln(w, runStress(fmt.Sprintf("c12s-%d-%d", a.Seed, i), r, st))
 		}
@@ -1099,6 +1198,10 @@ func main() {
 	case "replay":
 		for _, line := range hx.StdinLines() {
 			f := strings.Fields(line)
+			if len(f) > 1 && f[1] == "S" && strings.HasPrefix(f[0], "c12a") {
+				fmt.Fprintln(w, runApp(f[0], strings.HasSuffix(f[0], "1"), nil))
+				continue
+			}
 			if len(f) > 1 && f[1] == "S" {
 				fmt.Fprintln(w, runStress(f[0], hx.NewRand(uint64(len(line))), nil)) // unscheduled: any seed will do
 				continue
